@@ -14,8 +14,8 @@ EXTENDS NodePut, TLC, Json, IOUtils, SequencesExt
 Rec == ndJsonDeserialize(IOEnv.TRACE)
 N == Len(Rec)
 
-VARIABLES l, viol, stats
-vars == <<l, viol, stats>>
+VARIABLES l, viol, stats, last
+vars == <<l, viol, stats, last>>
 
 SetOf(seq) == {seq[i] : i \in 1..Len(seq)}
 Content(j) == CASE j.kind = "none" -> [kind |-> "none"]
@@ -24,7 +24,7 @@ Content(j) == CASE j.kind = "none" -> [kind |-> "none"]
                 [] j.kind = "txs" -> [kind |-> "txs", ids |-> SetOf(j.ids)]
                 [] j.kind = "reg" -> [kind |-> "reg", ops |-> SetOf(j.ops)]
                 [] OTHER -> [kind |-> j.kind]
-DeliveryOf(j) == [path |-> j.path, kind |-> j.kind, keyOk |-> j.keyOk, parse |-> j.parse,
+DeliveryOf(j) == [path |-> j.path, kind |-> j.kind, keyOk |-> j.keyOk, heldIdx |-> j.heldIdx, parse |-> j.parse,
                   pay |-> [sigs |-> j.pay.sigs, self |-> j.pay.self, close |-> j.pay.close, fresh |-> j.pay.fresh,
                            chain |-> j.pay.chain, addr |-> j.pay.addr],
                   pad |-> [c |-> j.pad.c, sig |-> j.pad.sig, content |-> j.pad.content],
@@ -34,14 +34,22 @@ StepOf(e) == [d |-> DeliveryOf(e.d), res |-> e.res, beforeD |-> Content(e.aBefor
               beforeP |-> Content(e.aBeforeP), afterP |-> Content(e.aAfterP), gained |-> SetOf(e.gained), lost |-> SetOf(e.lost),
               derivedOK |-> e.derivedOK, contentOK |-> e.contentOK, unverified |-> e.unverified]
 
-Init == l = 1 /\ viol = {} /\ stats = [deliveries |-> 0, accepted |-> 0, changed |-> 0]
+\* gated runs (disk writes of a whole sequence parked, the index lagging): only the C07 clauses apply
+GatedClauses == {"C07_Applied", "C07_ScratchpadMonotone", "C07_GrowOnly", "C07_OnlyValid", "C04_StoredUnderDerivedKey"}
+Init == l = 1 /\ viol = {} /\ stats = [deliveries |-> 0, accepted |-> 0, changed |-> 0] /\ last = [kind |-> "none"]
 Next == /\ l <= N
         /\ l' = l + 1
         /\ LET e == Rec[l] IN
-           IF e.ev = "Reset" THEN UNCHANGED <<viol, stats>>
-           ELSE IF e.ev # "Deliver" THEN viol' = viol \cup {[clause |-> "Malformed", line |-> l]} /\ UNCHANGED stats
+           IF e.ev = "Reset" THEN UNCHANGED <<viol, stats, last>>
+           ELSE IF e.ev = "Settled" THEN
+                \* once the parked disk work has run, the node holds what it held after the last delivery
+                /\ viol' = viol \cup (IF Content(e.aAfterD) = last /\ e.contentOK /\ (last.kind # "none" => e.listed) THEN {}
+                                     ELSE {[clause |-> "C07_SettledSame", line |-> l]})
+                /\ UNCHANGED <<stats, last>>
+           ELSE IF e.ev # "Deliver" THEN viol' = viol \cup {[clause |-> "Malformed", line |-> l]} /\ UNCHANGED <<stats, last>>
            ELSE LET x == StepOf(e) IN
-                /\ viol' = viol \cup {[clause |-> c, line |-> l] : c \in FalsifiedBy(x)}
+                /\ last' = x.afterD
+                /\ viol' = viol \cup {[clause |-> c, line |-> l] : c \in (IF e.src = "tlc-gated" THEN FalsifiedBy(x) \cap GatedClauses ELSE FalsifiedBy(x))}
                 /\ stats' = [deliveries |-> stats.deliveries + 1,
                              accepted |-> stats.accepted + (IF e.res = "Ok" THEN 1 ELSE 0),
                              changed |-> stats.changed + (IF x.afterD # x.beforeD THEN 1 ELSE 0)]
